@@ -12,6 +12,7 @@
 #include "verif.h"
 #include "alloc.h"
 #include "ref_slice.h"
+#include "longpat.h"
 #include "st_string.h"
 
 using vf::Ctx;
@@ -436,6 +437,13 @@ static void build(vf::Plan &plan, const vf::Opts &o)
         "an empty separator / pattern must leave the text whole: split -> [text], replace -> text",
         "subjects longer than the sequence bound are covered by the complete {a,','}^n sweep around the small-string limit and by periodic contents of every length up to the stated bound"};
 
+    // VF_REDUCED: the ASan+UBSan build of the quick tier keeps the stages whose subjects live on the heap at full size and
+    // shrinks the in-object ones (what ASan adds is reads past a heap block)
+#ifdef VF_REDUCED
+    const bool reduced = true;
+#else
+    const bool reduced = false;
+#endif
     const std::string SA("abA,\0", 5);
     const std::string RA("ab,", 3);
     const uint64_t nto = vf::seq_count(RA.size(), 3);
@@ -460,7 +468,7 @@ static void build(vf::Plan &plan, const vf::Opts &o)
                               });
         st.case_timeout_s = 3;
     };
-    split_stage(T ? 6 : 5, 3);
+    split_stage(reduced ? 3 : T ? 6 : 5, reduced ? 2 : 3);
     if (T) split_stage(7, 2);
 
     // ---- replace (all four overloads for subjects up to 3 bytes, the two pure ones beyond: the mixed overloads
@@ -485,12 +493,12 @@ static void build(vf::Plan &plan, const vf::Opts &o)
         st.case_timeout_s = 3;
     };
     (void)nto;
-    replace_stage(5, 3, 3);
+    replace_stage(reduced ? 3 : 5, reduced ? 2 : 3, reduced ? 2 : 3);
     if (T) replace_stage(6, 3, 2);
 
     // ---- tokenize
     const std::string KA("ab, \t\0", 6);
-    const unsigned KL = T ? 8 : 6;
+    const unsigned KL = reduced ? 4 : T ? 8 : 6;
     {
         auto &st = plan.stage(strf("tokenize:{a,b,',',SP,TAB,NUL}^<=%u x 6 delimiter sets", KL), vf::seq_count(KA.size(), KL) * NDELIMS,
                               [KA, KL](uint64_t idx, Ctx &c) {
@@ -507,7 +515,7 @@ static void build(vf::Plan &plan, const vf::Opts &o)
 
     // ---- long subjects: complete {a,','}^n around the small-string limit
     {
-        auto lens = std::make_shared<std::vector<unsigned>>(T ? std::vector<unsigned>{13, 14, 15, 16, 17, 18} : std::vector<unsigned>{14, 15, 16});
+        auto lens = std::make_shared<std::vector<unsigned>>(T ? std::vector<unsigned>{13, 14, 15, 16, 17, 18} : reduced ? std::vector<unsigned>{10} : std::vector<unsigned>{14, 15, 16});
         auto seg = std::make_shared<Segments>();
         for (unsigned n : *lens) seg->add(1ull << n);
         auto &st = plan.stage(strf("long:{a,','}^n n=%u..%u x (4 sep x 3 max split; 4 from x 5 to replace; tokenize)", lens->front(), lens->back()), seg->total(),
@@ -531,7 +539,7 @@ static void build(vf::Plan &plan, const vf::Opts &o)
         static const char *const PERIOD[] = {"a,", "aa,", "a,,b", ",ab"};
         static const char *const VSEPS[] = {",", ",,", "a,"};
         static const char *const VTOS[] = {"", "bb", "b,b"};
-        const unsigned NMAXLEN = T ? 4200 : 1100;
+        const unsigned NMAXLEN = reduced ? 300 : T ? 4200 : 1100;
         auto mk = [](uint64_t idx) {
             unsigned pi = (unsigned)vf::take(idx, 4);
             size_t n = (size_t)idx, pl = strlen(PERIOD[pi]);
@@ -594,6 +602,30 @@ static void build(vf::Plan &plan, const vf::Opts &o)
                {"@", "`", "A", "a", "Z", "z", "[", "{", "\xC3\x81", "\xC3\xA1"}, 3, {"", "-", "--"});
     unit_stage("utf8:{a,',',U+00E9,U+20AC}^<=%u x pattern^<=2 (split max in {1,SIZE_MAX}; replace to in {\"\",\"b\",U+00E9})",
                {"a", ",", "\xC3\xA9", "\xE2\x82\xAC"}, T ? 6 : 5, {"", "b", "\xC3\xA9"});
+    // ---- long separators / patterns with a near-miss in the text (see longpat.h), every length across 8 / 16 / 32 / 64
+    {
+        auto cases = std::make_shared<std::vector<lp::LN>>(lp::cases(T));
+        auto &st = plan.stage(strf("long patterns: lengths %s, one byte of the occurrence flipped in bit 5 / incremented at every position, 10 byte classes, "
+                                   "3 contexts (split max in {1,SIZE_MAX}; replace to in {\"\",\"-\",pattern+\"!\"})", lp::lens_text(T)),
+                              cases->size(),
+                              [cases, BOTH](uint64_t i, Ctx &c) {
+                                  std::string text, pat;
+                                  lp::make((*cases)[i], text, pat, true);
+                                  bool nt = false;
+                                  check_split(c, text, pat, 1, nt);
+                                  check_split(c, text, pat, UINT64_MAX, nt);
+                                  check_replace(c, text, pat, "", BOTH, nt);
+                                  check_replace(c, text, pat, "-", BOTH, nt);
+                                  check_replace(c, text, pat, pat + "!", BOTH, nt);
+                                  if (nt) c.nontrivial();
+                              },
+                              [cases](uint64_t i) {
+                                  std::string text, pat;
+                                  lp::make((*cases)[i], text, pat, true);
+                                  return strf("s=%s pattern=%s", vf::vis(text).c_str(), vf::vis(pat).c_str());
+                              });
+        st.case_timeout_s = 10;
+    }
 }
 
 VF_MAIN("C09", build)
